@@ -97,7 +97,7 @@ structure AInv (cfg : Cfg) (st : St) : Prop where
   rel : ∃ t, Rel cfg st t
   nodup : st.outstanding.Nodup
   lt : ∀ s ∈ st.outstanding, s < st.nextSid
-  pv : PV true st false
+  pv : PV true [] st false
 
 theorem ainv_step (cfg : Cfg) (st : St) (e : Ev) (h : AInv cfg st) (ha : AccOK true cfg st e) :
     AInv cfg (step cfg st e).1 := by
@@ -106,7 +106,7 @@ theorem ainv_step (cfg : Cfg) (st : St) (e : Ev) (h : AInv cfg st) (ha : AccOK t
   obtain ⟨hn, hlt, _, _⟩ := outPlus_spec (cfg := cfg) (t := { fired := [] }) st e
     ⟨h.nodup, h.lt, fun s hs => by cases hs⟩
   exact ⟨⟨_, (rel_step cfg st t (snapOf st) e ht).1⟩, fd.nodup hn, fun s hs => hlt s (fd.sub s hs),
-    step_pv true cfg st e h.nodup h.lt ht.bok ha h.pv⟩
+    step_pv true [] cfg st e h.nodup h.lt ht.bok ha h.pv⟩
 
 theorem ainv_run (cfg : Cfg) (evs : List Ev) (st : St) (h : AInv cfg st) (ha : Accounted cfg st evs) :
     AInv cfg (run cfg st evs).1 := by
@@ -135,8 +135,9 @@ theorem run_fires_exactly_once (cfg : Cfg) (evs : List Ev) (hacc : Accounted cfg
   have ha := ainv_run cfg evs _ (ainv_init cfg) hacc
   simp only [List.nil_append] at hf
   by_cases ho : s ∈ (run cfg (St.init cfg) evs).1.outstanding
-  · rcases ha.pv s ho with h | ⟨_, _, h⟩
+  · rcases ha.pv s ho with (h | h) | ⟨_, _, h⟩
     · exact Or.inl h
+    · cases h
     · simp [pend, hidle] at h
   · right
     have hm : s ∈ firedSids (run cfg (St.init cfg) evs).2 := (hf.iff s).mpr ⟨hs, ho⟩
